@@ -291,9 +291,15 @@ func (c *caseRun) window(ts []tun, during []string) {
 	}
 	c.v.EndRebuild()
 	c.cur = ts
-	c.emit("wend", "")
-	for i, l := range late { // connections that waited for the change are served now
-		c.emit("incoming "+lateH[i]+" "+c.kind, l())
+	// connections that waited for the change are resolved as soon as the lock is released: collect
+	// their observations first, then report the state (the wend line names them)
+	obs := make([]string, len(late))
+	for i, l := range late {
+		obs[i] = l()
+	}
+	c.emit("wend "+list(lateH), "")
+	for i := range late {
+		c.emit("incoming "+lateH[i]+" "+c.kind, obs[i])
 	}
 	c.r.Count("op:window")
 }
